@@ -13,6 +13,7 @@ import z3
 
 from pyvc.core import Contract, Case
 from pyvc.runner import Lemma, Bounded
+from pyvc.values import GenericIter
 from pyvc.values import SV, SymObj, SymSeq, SymMap, NativeModel, Leaf, NameSort, real_val, name_const
 from pyvc import library, amlmodel
 from pyvc.library import SIGMA, sigma_unfold
@@ -254,8 +255,9 @@ def _expected_demand_case(kind, existing):
         st, ps, dm = cx.int("sim_time"), cx.int("pattern_start"), cx.real("demand_multiplier")
         cx.assume(cx.t(st) >= 0, cx.t(ps) >= 0)
         node = mk_node(cx, Junction, n, _demand_timeseries_list=DemList(n))
-        opts = cx.obj(types.SimpleNamespace, hydraulic=cx.obj(types.SimpleNamespace, demand_multiplier=dm),
-                      time=cx.obj(types.SimpleNamespace, pattern_start=ps))
+        from contracts._net import time_options
+        opts = cx.obj(types.SimpleNamespace, hydraulic=cx.obj(types.SimpleNamespace, demand_multiplier=dm, demand_model="DD"),
+                      time=time_options(cx, pattern_start=ps))
         wn = WNJ(options=opts)
         wn.sim_time = st
         wn.nodes.append((n, node))
@@ -265,7 +267,7 @@ def _expected_demand_case(kind, existing):
         if kind == "param":
             cx.target(param.expected_demand_param, m, wn)
         else:
-            cx.target(var.demand_var, m, wn, [n])
+            cx.target(var.demand_var, m, wn, GenericIter([n]))
 
         def post(out):
             if not out.returned:
